@@ -17,9 +17,40 @@ Definition leaf_proved (k : pkind) : bool :=
 
 Definition constr_proved (k : constr) : bool :=
   match k with
-  | CSkipBaseCheck => true
+  | CSkipBaseCheck | CAtLeastOne _ | CAtLeastOneDefault | CMutEx _ | CDepends _ _ | CProcessExt => true
   | _ => false
   end.
+
+(* the property names a constraint reads *)
+Fixpoint ccond_names (q : ccond) : list ustring :=
+  match q with
+  | QTruthy p | QIsTrue p | QIsNotFalse p | QIsNotNone p | QHas p => [p]
+  | QLt a b | QLe a b => [a; b]
+  | QAnd a b | QOr a b => ccond_names a ++ ccond_names b
+  | QNot a => ccond_names a
+  end.
+
+Fixpoint constr_names (c : cls) (k : constr) : list ustring :=
+  match k with
+  | CAtLeastOne ps | CMutEx ps => ps
+  | CAtLeastOneDefault => default_checked c
+  | CDepends ps ds => ps ++ ds
+  | CRaiseIf q _ => ccond_names q
+  | CWhen q body => ccond_names q ++ flat_map (constr_names c) body
+  | CTlp _ => map u ["definition_type"; "definition"; "id"; "created"]%string
+  | CPatternValidator _ => map u ["pattern"; "pattern_type"; "pattern_version"]%string
+  | CLegalHashes _ => [u "hashes"]
+  | CSocketOptions => [u "options"]
+  | CProcessExt => default_checked c ++ [u "extensions"]
+  | CSkipBaseCheck | COpaque _ => []
+  end.
+
+(* properties with a constant default: the ones serialization may leave out *)
+Definition dconst_names (c : cls) : list ustring :=
+  map sname (filter (fun s => match sdef s with DConst _ => true | _ => false end) (cslots c)).
+
+Definition uses_default_checked (k : constr) : bool :=
+  match k with CAtLeastOneDefault | CProcessExt => true | _ => false end.
 
 Definition init_proved (i : preinit) : bool :=
   match i with
@@ -37,8 +68,15 @@ Fixpoint kind_proved (cp : ustring -> bool) (k : pkind) : bool :=
 
 (* table well-formedness the proof relies on: distinct property names, constant defaults in scope, and
    -- 2.1 observables -- an `id` property of the class's own type (the deterministic id is written there) *)
+Definition ext_constr (c : cls) : list constr :=
+  match cfamily c with FExt => [CAtLeastOneDefault] | _ => [] end.
+
 Definition class_wf (c : cls) : bool :=
   unodup (map sname (cslots c)) &&
+  (* no constraint reads a property that serialization may leave out, nor (2.1 observables) the id *)
+  forallb (fun k => forallb (fun p => negb (mem_ustr p (dconst_names c))) (constr_names c k)) (ext_constr c ++ ccons c) &&
+  (* "at least one of the class's properties" ranges over a non-empty list *)
+  (negb (existsb uses_default_checked (ext_constr c ++ ccons c)) || match default_checked c with [] => false | _ => true end) &&
   forallb (fun s => match sdef s with DConst j => jscope j | _ => true end) (cslots c) &&
   match cfamily c, cver c with
   | FSco, V21 =>
@@ -51,9 +89,6 @@ Definition class_wf (c : cls) : bool :=
     end
   | _, _ => true
   end.
-
-Definition ext_constr (c : cls) : list constr :=
-  match cfamily c with FExt => [CAtLeastOneDefault] | _ => [] end.
 
 Fixpoint class_proved (n : nat) (w : world) (cid : ustring) : bool :=
   match n with
